@@ -346,6 +346,10 @@ func (n *BaseNode) InsertAfter(self, v1, insertee Node) {
 
 // InsertBefore implements Node.InsertBefore .
 func (n *BaseNode) InsertBefore(self, v1, insertee Node) {
+	if v1 == insertee {
+		// already in place (InsertAfter hands over the next sibling, which may be the insertee itself)
+		return
+	}
 	if v1 == nil || v1.Parent() != self {
 		n.AppendChild(self, insertee)
 		return
